@@ -35,6 +35,7 @@ import (
 	"strconv"
 	"strings"
 	"time"
+	"unicode/utf8"
 
 	xl "github.com/xuri/excelize/v2"
 )
@@ -115,8 +116,8 @@ func c11parseVal(tok string) (v interface{}, model string, it c11Item, err error
 	case 's':
 		s := unhx(rest)
 		m := "s" + rest
-		if strings.Contains(s, "_x") {
-			m = "" // bstrMarshal is external to the model
+		if !utf8.ValidString(s) {
+			m = "" // the model transcribes xml.EscapeText / bstrMarshal for valid UTF-8 only
 		}
 		return s, m, it, nil
 	case 'Z': // long string: unit repeated n times
@@ -129,7 +130,7 @@ func c11parseVal(tok string) (v interface{}, model string, it c11Item, err error
 	case 'y':
 		s := unhx(rest)
 		m := "s" + rest
-		if strings.Contains(s, "_x") {
+		if !utf8.ValidString(s) {
 			m = ""
 		}
 		return []byte(s), m, it, nil
@@ -177,11 +178,6 @@ func c11parseVal(tok string) (v interface{}, model string, it c11Item, err error
 		}
 		b, e := xl.VerifC11RichText(it.rich)
 		m := "R" + c11hexb(b)
-		for _, run := range it.rich {
-			if strings.Contains(run.Text, "_x") {
-				m = ""
-			}
-		}
 		if e != nil {
 			it.richBad = true
 			m = "RE"
@@ -215,7 +211,7 @@ func c11parseItem(tok string) (c11Item, error) {
 		} else {
 			it.val = &xl.Cell{StyleID: st, Formula: it.formula, Value: v}
 		}
-		if m != "" && !strings.Contains(it.formula, "_x") {
+		if m != "" && utf8.ValidString(it.formula) {
 			it.modelTok = "C" + p[0] + "," + p[1] + "," + m
 		}
 		return it, nil
@@ -658,6 +654,9 @@ func (c *c11Case) exec(line string) {
 			return
 		}
 		r.Stat("op:table:" + c11res(err))
+		if st, e := xl.VerifC11Snapshot(c.sw, false); e == nil && st.HasTmp {
+			r.Stat("op:table:after-spill") // AddTable reads the spilled rows back through bufferedWriter.Reader before Flush
+		}
 		c.opBW("bwflush")
 		if err == nil {
 			c.table = true
@@ -1059,8 +1058,13 @@ func c11RunCase(r *Run, lines []string) *c11Case {
 
 // ---------------------------------------------------------------- generator
 
-var c11strs = []string{"a", "hello world", " lead", "trail ", "\ttab", "line\nbreak", "cr\rlf\n", "<tag>&amp;\"q\"'s'", "ünï©ødé ✓ 漢字", "1234", "1e5", "TRUE", "=1+2", "", "x\x01y", "a&b<c>d", "  ", "0", "-3.5", "]]>", "&#xA;", "&#10;lit"}
-var c11bstrs = []string{"_x0041_", "a_x000D_b", "_x005F_x0041_", "_xZZZZ_"}
+var c11strs = []string{"a", "hello world", " lead", "trail ", "\ttab", "line\nbreak", "cr\rlf\n", "<tag>&amp;\"q\"'s'", "ünï©ødé ✓ 漢字", "1234", "1e5", "TRUE", "=1+2", "", "x\x01y", "a&b<c>d", "  ", "0", "-3.5", "]]>", "&#xA;", "&#10;lit",
+	// carriage returns, characters outside XML 1.0, escape look-alikes (all through BOTH APIs)
+	"a\r\nb", "\rlead", "trail\r", "a\rb", "x\x07y", "\x00", "a\x1fb\x0bc", "\x7f", "\uFFFE", "a\uFFFFb", "\uFFFD",
+	"_x0041_", "a_x000D_b", "_x005F_x0041_", "_xZZZZ_", "_x0041\x01", "_x0041_x0042_", "__x000A_"}
+
+// invalid UTF-8 (rich cases only: not transcribed by the model)
+var c11bstrs = []string{"a\xffb", "\xc3", "\xed\xa0\x80z", "ok\xe2\x82", "\x80\r\n"}
 var c11formulas = []string{"1+2", "SUM(A1:B2)", "A1&\"<x>\"", "IF(A1>1,\"a\",\"b\")", "B1*2"}
 
 func c11genVal(rng *Rng, rich bool) string {
@@ -1421,7 +1425,10 @@ func c11witnesses() [][]string {
 		{"case model 0", "setrow " + hx("A1") + " - i1", "setrow " + hx("A2") + " 0,2000,0,0 i5", "setrow " + hx("A2") + " - i5", "flush"},
 		{"case model 0", "setrow " + hx("A1") + " 0,2000,0,0 i5", "colwidth 1 1 80", "setrow " + hx("A1") + " - i6", "flush"},
 		{"case model 0", "setrow " + hx("A1") + " - i1", "setrow " + hx("A2") + " - i2 RE i3", "setrow " + hx("A2") + " - i4", "flush"},
-		{"case rich 0", "setrow " + hx("A1") + " - s" + hx("_x0041_") + " s" + hx("plain"), "flush"},
+		{"case model 0", "setrow " + hx("A1") + " - s" + hx("_x0041_") + " s" + hx("plain"), "flush"},
+		// characters outside XML 1.0, carriage returns and escape look-alikes through both APIs
+		{"case model 1", "setrow " + hx("A1") + " - s" + hx("x\x01y") + " s" + hx("a\r\nb") + " C1," + hx("A1&\"x\"") + ",s" + hx("f\x07\uFFFE") + " s" + hx("_x0041\x01") + " R" + hx("r\x02") + "~" + hx("\rq"), "flush"},
+		{"case rich 0", "setrow " + hx("A1") + " - s" + hx("a\xffb") + " y" + hx("\xc3") + " s" + hx("ok"), "flush"},
 		// the last row of the grid, once per run (the in-memory twin materialises a million row slots)
 		{"case model 1", "setrow " + hx("A1") + " - i1", "setrow " + hx("B1048576") + " 1,60,0,0 i2 s" + hx("last") + " n C1," + hx("A1+1") + ",n", "setrow " + hx("A1048577") + " - i3", "flush"},
 		{"case model 0", "flush"},
